@@ -7,6 +7,7 @@ import ExoModel.Equiv
 import ExoModel.Lemmas.Exec
 import ExoModel.Lemmas.Rewrites
 import ExoModel.DataLaws
+import ExoModel.Lemmas.RewriteAt
 
 set_option linter.unusedSectionVars false
 namespace Exo.C01
@@ -43,6 +44,16 @@ example : Equiv (fun _ => False)
     (.mk "p" [] [] ((Ctx.loop ⟨"i", 1⟩ (.lit (.int 0)) (.lit (.int 3)) false .hole).fill [.pass])) :=
   equiv_of_block_rewrite (BlockLe.refl _) _ _ _ _
 
+/-- the path-addressed applicator of `ExoModel.Rewrite` (the shape the real primitives' outputs are
+    compared with on every run) preserves soundness of the local rewrite: a local rewrite that
+    never loses behaviour, applied at ANY address of ANY procedure body, gives an equivalent
+    procedure -/
+theorem rewrite_at_address (f : Rw.Local) (hf : ∀ ss r, f ss = some r → BlockLe ss r)
+    (path : Rw.Path) (nm : String) (args : List FnArg) (preds : List Expr) (body body' : List Stmt)
+    (h : Rw.rewriteAt f path body = some body') :
+    Equiv (fun _ => False) (.mk nm args preds body) (.mk nm args preds body') :=
+  equiv_of_blockLe (Rw.rewriteAt_le f hf path body body' h) nm args preds
+
 variable {V : Type} [DataAlg V] (ext : String → List V → V)
 
 /-! ### insert_pass / delete_pass -/
@@ -53,6 +64,33 @@ theorem insert_pass (B : List Stmt) : BlockEq B (.pass :: B) := by
   exact ExEq.refl _
 
 theorem delete_pass (B : List Stmt) : BlockEq (.pass :: B) B := (insert_pass B).symm
+
+/-- `insert_pass` at any gap of any procedure: equivalent, no configuration field changed -/
+theorem insert_pass_anywhere (before : Bool) (path : Rw.Path) (nm : String) (args : List FnArg)
+    (preds : List Expr) (body body' : List Stmt)
+    (h : Rw.rewriteAt (if before then Rw.insertPassBefore else Rw.insertPassAfter) path body = some body') :
+    Equiv (fun _ => False) (.mk nm args preds body) (.mk nm args preds body') := by
+  refine rewrite_at_address _ ?_ path nm args preds body body' h
+  intro ss r hr
+  cases before
+  · -- after
+    cases ss with
+    | nil => simp [Rw.insertPassAfter] at hr
+    | cons s t =>
+      simp only [Rw.insertPassAfter, if_false, Bool.false_eq_true, Option.some.injEq] at hr
+      subst hr
+      have := BlockLe.seq (insert_pass t).le [s] []
+      simpa using this
+  · cases ss with
+    | nil => simp [Rw.insertPassBefore] at hr
+    | cons s t =>
+      simp only [Rw.insertPassBefore, if_true, Option.some.injEq] at hr
+      subst hr
+      exact (insert_pass (s :: t)).le
+
+example : Rw.rewriteAt Rw.insertPassBefore [.body 0, .body 0]
+    [.loop ⟨"i", 1⟩ (.lit (.int 0)) (.lit (.int 3)) [.pass] false]
+    = some [.loop ⟨"i", 1⟩ (.lit (.int 0)) (.lit (.int 3)) [.pass, .pass] false] := by rfl
 
 /-! ### eliminate_dead_code -/
 
@@ -184,5 +222,68 @@ theorem fission (i : Sym) (lo hi : Expr) (A B : List Stmt) (par : Bool) (σ : St
     simp only []
     rw [execS_loop ext i lo hi B par σ1 l h hl1 hh1 hle]
     cases iterate (loopStep ext i B) (h - l).toNat l σ1 <;> exact ExEq.refl _
+
+/-! ### fuse (ifs) -/
+
+/-- `if c: T else: E ; if c: T' else: E'`  =  `if c: T;T' else: E;E'`  when the first statement
+    does not change the value of `c` (the content of `Check_ExprEqvInContext` on the two
+    conditions) and `T`, `E` define no name (their scope ends at the first `if`) -/
+theorem fuse_if (c : Expr) (t e t' e' : List Stmt) (σ : State V) (b : Int)
+    (hc : evalC σ c = .ok b) (hnt : noDefs t = true) (hne : noDefs e = true)
+    (hstable : ∀ σ1, execS ext (.ite c t e) σ = .ok σ1 → evalC σ1 c = .ok b) :
+    execL ext [.ite c t e, .ite c t' e'] σ = execS ext (.ite c (t ++ t') (e ++ e')) σ := by
+  simp only [execL, bind, Except.bind]
+  cases h1 : execS ext (.ite c t e) σ with
+  | error err =>
+    -- the first `if` fails: so does the fused one, at the same point
+    simp only [execS, hc, bind, Except.bind] at h1 ⊢
+    by_cases hb : b = 0
+    · simp only [hb, ne_eq, not_true_eq_false, if_false] at h1 ⊢
+      rw [execL_append]
+      cases h2 : execL ext e σ with
+      | error e2 => simp [Except.map, bind, Except.bind]; simp [h2, Except.map] at h1; exact h1.symm
+      | ok s2 => simp [h2, Except.map] at h1
+    · simp only [hb, ne_eq, not_false_eq_true, if_true] at h1 ⊢
+      rw [execL_append]
+      cases h2 : execL ext t σ with
+      | error e2 => simp [Except.map, bind, Except.bind]; simp [h2, Except.map] at h1; exact h1.symm
+      | ok s2 => simp [h2, Except.map] at h1
+  | ok σ1 =>
+    have hc1 := hstable σ1 h1
+    simp only []
+    simp only [execS, hc, hc1, bind, Except.bind] at h1 ⊢
+    by_cases hb : b = 0
+    · simp only [hb, ne_eq, not_true_eq_false, if_false] at h1 ⊢
+      rw [execL_append]
+      cases h2 : execL ext e σ with
+      | error e2 => simp [h2, Except.map] at h1
+      | ok s2 =>
+        simp only [h2, Except.map, Except.ok.injEq] at h1
+        have hl := leave_of_noDefs ext hne h2
+        rw [hl] at h1; subst h1
+        simp only [bind, Except.bind]
+        have sc := execL_scope ext e σ s2 h2
+        have h3 := sc.2.2 (by simp [hne])
+        cases h4 : execL ext e' s2 with
+        | error _ => simp [Except.map]
+        | ok s3 =>
+          simp only [Except.map, pure, Except.pure]
+          simp [State.leave, sc.1, h3.1, h3.2]
+    · simp only [hb, ne_eq, not_false_eq_true, if_true] at h1 ⊢
+      rw [execL_append]
+      cases h2 : execL ext t σ with
+      | error e2 => simp [h2, Except.map] at h1
+      | ok s2 =>
+        simp only [h2, Except.map, Except.ok.injEq] at h1
+        have hl := leave_of_noDefs ext hnt h2
+        rw [hl] at h1; subst h1
+        simp only [bind, Except.bind]
+        have sc := execL_scope ext t σ s2 h2
+        have h3 := sc.2.2 (by simp [hnt])
+        cases h4 : execL ext t' s2 with
+        | error _ => simp [Except.map]
+        | ok s3 =>
+          simp only [Except.map, pure, Except.pure]
+          simp [State.leave, sc.1, h3.1, h3.2]
 
 end Exo.C01
